@@ -66,6 +66,8 @@ def cases(tier, seed):
     out.append(('split_two_node', dict(kind='split', shape='two_node', kw=dict(T=4, freq='12h'), split='d')))
     out.append(('split_storage_partial_window', dict(kind='split', shape='contract_storage', kw=dict(T=4, freq='12h', win_s=(0, 2)), split='d')))
     out.append(('split_storage_late_window', dict(kind='split', shape='contract_storage', kw=dict(T=4, freq='12h', win_s=(2, 4)), split='d')))
+    # an interval that is a MIP (full-execution order inside the second interval only) between / after intervals that are LPs
+    out.append(('split_one_interval_is_a_mip', dict(kind='split', shape='orderbook', kw=dict(T=4, full_exec=True, storage=False, orders=((2, 4, 2.0),)), split='2h')))
     n_inst = 60 if tier == 'thorough' else 16
     for k in range(4):
         out.append(('contract_validation_%d' % k, dict(kind='validate', n_inst=n_inst // 4, offset=k * 1000)))
@@ -405,7 +407,12 @@ def run_split(rec, seed, shape, kw, split):
                     idx += 1
                     if cls == 'N':
                         want += list(p.constraints[idx].dual_value)
-        okd = dn is not None and len(dn) == len(want) == len(sc.op.map_nodal_restr) and all(a is b for a, b in zip(dn, want))
+        if any(lpsem.LP(o).bools for o in sc.ops):
+            # an interval that is a MIP has no duals: then the split result carries none at all (a partial list could not be aligned with the
+            # recorded nodal rows of all intervals)
+            okd = dn is None
+        else:
+            okd = dn is not None and len(dn) == len(want) == len(sc.op.map_nodal_restr) and all(a is b for a, b in zip(dn, want))
         nm = P + '/nodal_duals_concatenated'
         rec.obligations.append(dict(name=nm, verdict='unsat' if okd else 'sat', secs=0, form='Q2'))
         rec.distinct.add(nm)
@@ -697,6 +704,13 @@ def stub_replay(kwargs, env, info):
                 vals.append(None if isinstance(r, str) else float(r.value))
             out.update(split_value=None if isinstance(res, str) else float(res.value), interval_values=vals,
                        n_x=None if isinstance(res, str) else len(res.x), n_c=len(sc.op.c))
+            if info.get('ob') == 'split_duals' and not isinstance(res, str):
+                dn_ = res.duals.get('N') if isinstance(res.duals, dict) else None
+                out.update(n_nodal_duals=None if dn_ is None else len(dn_), n_nodal_records=len(sc.op.map_nodal_restr or []))
+                try:
+                    eao.io.extract_output(sc.sh.portf, sc.op, res)
+                except Exception as e:  # noqa: BLE001
+                    out['extract_error'] = '%s: %s' % (type(e).__name__, str(e)[:120])
             if info.get('ob') == 'split_x2':
                 res_b = sc.op.optimize()           # second call on the same object
                 out.update(second_value=None if isinstance(res_b, str) else float(res_b.value), second_n_x=None if isinstance(res_b, str) else len(res_b.x))
@@ -814,6 +828,8 @@ def judge(case, kwargs, cand, ans):
         v1, v2 = o.get('split_value'), o.get('second_value')
         bad = o.get('second_n_x') != o.get('n_c') or (v1 is not None and v2 is not None and abs(v1 - v2) > 1e-6 * max(1, abs(v1)))
         return bad, 'second optimisation of the same split problem: value %s (first call %s), len(x) %s for %s variables' % (v2, v1, o.get('second_n_x'), o.get('n_c'))
+    if ob == 'split_duals' and (o.get('extract_error') or (o.get('n_nodal_duals') is not None and o.get('n_nodal_duals') != o.get('n_nodal_records'))):
+        return True, 'split result: %s nodal duals for %s recorded nodal rows; extract_output: %s' % (o.get('n_nodal_duals'), o.get('n_nodal_records'), o.get('extract_error', 'ok'))
     if ob in ('split_value', 'split_x', 'split_duals'):
         iv = o.get('interval_values') or []
         bad = o.get('n_x') != o.get('n_c') or (None not in iv and o.get('split_value') is not None and abs(sum(iv) - o['split_value']) > 1e-6 * max(1, abs(o['split_value'])))
